@@ -23,6 +23,7 @@ func init() {
 	commands["draw"] = cmdDraw
 	commands["sweep"] = cmdSweep
 	commands["sweepmerge"] = cmdSweepMerge
+	commands["sweepcount"] = cmdSweepCount
 }
 
 type DrawEv struct {
@@ -41,7 +42,12 @@ type DrawEv struct {
 }
 
 func drawOnce(n uint32, words []uint32) (res uint32, used int, kind string) {
-	t := &Tape{}
+	return drawOnceChunked(n, words, nil)
+}
+
+// drawOnceChunked serves the same words in short deliveries (chunk sizes cycle).
+func drawOnceChunked(n uint32, words []uint32, chunk []int) (res uint32, used int, kind string) {
+	t := &Tape{Chunk: chunk}
 	for _, w := range words {
 		t.Push(w)
 	}
@@ -194,9 +200,13 @@ func cmdDraw(args []string) {
 				res2, used2, kind2 := drawOnce(n, tail)
 				em.Emit(mkDrawEv(n, tail, res2, used2, kind2))
 			}
-			// determinism: same tape again
-			if rng.Intn(4) == 0 {
+			// determinism: same tape again, whole or delivered in short chunks
+			switch rng.Intn(6) {
+			case 0:
 				res3, used3, kind3 := drawOnce(n, words)
+				em.Emit(mkDrawEv(n, words, res3, used3, kind3))
+			case 1:
+				res3, used3, kind3 := drawOnceChunked(n, words, [][]int{{1}, {2, 1}, {3}, {1, 3}}[rng.Intn(4)])
 				em.Emit(mkDrawEv(n, words, res3, used3, kind3))
 			}
 		}
@@ -279,6 +289,7 @@ func cmdSweep(args []string) {
 	hi := fs.Uint64("hi", 1<<32, "")
 	hist := fs.String("hist", "", "histogram output file")
 	depth := fs.Int("depth", 1, "present v as the depth-th word, after depth-1 words the real draw rejects")
+	countOnly := fs.Bool("countonly", false, "count accepted/rejected words only (no per-result histogram): for bounds too large for one")
 	fs.Parse(args)
 	n := uint32(*n64)
 	r := &sweepReader{}
@@ -298,6 +309,24 @@ func cmdSweep(args []string) {
 	wide := n > 1<<24
 	var h32 []uint32
 	var h8 []uint8
+	if *countOnly {
+		var accepted, rejected, outOfRange uint64
+		for v := *lo; v < *hi; v++ {
+			r.v = uint32(v)
+			r.k = 0
+			res := spg.VerifRandomUint32n(n)
+			if r.k == len(r.prefix)+1 {
+				accepted++
+				if res >= n {
+					outOfRange++
+				}
+			} else {
+				rejected++
+			}
+		}
+		fmt.Printf("{\"accepted\":%d,\"rejected\":%d,\"outOfRange\":%d}\n", accepted, rejected, outOfRange)
+		return
+	}
 	if wide {
 		h8 = make([]uint8, uint64(n))
 	} else {
@@ -350,6 +379,26 @@ func cmdSweep(args []string) {
 }
 
 // sweepmerge sums shard histograms and emits one summary event.
+// sweepcount turns summed counts of a count-only sweep into one event (with a quotient witness for TLC).
+func cmdSweepCount(args []string) {
+	fs := flag.NewFlagSet("sweepcount", flag.ExitOnError)
+	out := fs.String("out", "sweepcount.ndjson", "")
+	n := fs.Uint64("n", 0, "")
+	acc := fs.Uint64("accepted", 0, "")
+	rej := fs.Uint64("rejected", 0, "")
+	oor := fs.Uint64("outofrange", 0, "")
+	depth := fs.Int("depth", 1, "")
+	fs.Parse(args)
+	bn := new(big.Int).SetUint64(*n)
+	qa, ra := new(big.Int).QuoRem(new(big.Int).SetUint64(*acc), bn, new(big.Int))
+	M1 := new(big.Int).SetUint64(1<<32 - 1)
+	qT, rT := new(big.Int).QuoRem(M1, bn, new(big.Int))
+	em := NewEmitter(*out)
+	em.Emit(map[string]interface{}{"op": "sweepcount", "n": LimbsU64(*n), "nDec": fmt.Sprint(*n), "depth": *depth, "accepted": LimbsU64(*acc), "acceptedDec": fmt.Sprint(*acc),
+		"rejected": LimbsU64(*rej), "outOfRange": LimbsU64(*oor), "qa": Limbs(qa), "ra": Limbs(ra), "qT": Limbs(qT), "rT": Limbs(rT)})
+	em.Close()
+}
+
 func cmdSweepMerge(args []string) {
 	fs := flag.NewFlagSet("sweepmerge", flag.ExitOnError)
 	out := fs.String("out", "sweep.ndjson", "")
